@@ -69,13 +69,10 @@ def main(argv):
         sh('git', '-C', REPO, 'worktree', 'remove', '--force', wt)
         shutil.rmtree(wt, ignore_errors=True)
     meta['confirmed'] = bool(ok)
-    # run our checks against it
-    ev = sh(PY, os.path.join(VERIF, 'tools', 'seeded_eval.py'), src)
-    meta['checks_output'] = ev.stdout.strip().splitlines()
-    first = meta['checks_output'][0] if meta['checks_output'] else ''
-    mc = re.search(r"caught by (\[.*?\]|NONE)", first)
-    meta['caught_by'] = [] if not mc or mc.group(1) == 'NONE' else re.findall(r"C\d+", mc.group(1))
-    meta['caught_by_own_property'] = pid in meta['caught_by']
+    # our checks are run below through an overlay (tools/seeded_reeval.py): /repo itself is never patched
+    meta['checks_output'] = []
+    meta['caught_by'] = []
+    meta['caught_by_own_property'] = False
     dst = os.path.join(VERIF, 'seeded', sid)
     os.makedirs(dst, exist_ok=True)
     if os.path.abspath(src) != os.path.abspath(dst):
@@ -86,8 +83,10 @@ def main(argv):
     if os.path.exists(notes):
         meta['needs_to_manifest'] = 'see notes.md'
     meta['what_was_run'] = ['git apply in a scratch worktree', 'py_compile of changed files', 'pytest auth/test/test_auth_utils.py (63 pinned tests)',
-                            'demo.py <worktree> without and with the change' if has_demo else 'demo.md read', 'tools/seeded_eval.py (all registered quick checks against /repo with the patch applied, then reverted)']
+                            'demo.py <worktree> without and with the change' if has_demo else 'demo.md read', 'tools/seeded_reeval.py (all registered quick checks against an overlay of /repo with the patch applied; /repo untouched)']
     json.dump(meta, open(os.path.join(dst, 'meta.json'), 'w'), indent=1)
+    sh(PY, os.path.join(VERIF, 'tools', 'seeded_reeval.py'), sid)
+    meta = json.load(open(os.path.join(dst, 'meta.json')))
     print(f"{sid}: confirmed={meta['confirmed']} caught_by={meta['caught_by']} own={meta['caught_by_own_property']}")
     for l in meta['checks_output'][1:8]:
         print('   ', l[:300])
